@@ -94,6 +94,10 @@ class Frame:
             fr.variant = dict(self.variant)
         if hasattr(self, 'dry'):
             fr.dry = self.dry
+        if hasattr(self, 'addrinfo'):
+            fr.addrinfo = dict(self.addrinfo)
+        if hasattr(self, 'valinfo'):
+            fr.valinfo = dict(self.valinfo)
         return fr
 
 
@@ -737,7 +741,7 @@ class Exec:
         env = self.local_env(fr, st)
         lid = self.loop_id(fr.f, head)
         for c in invs:
-            g = self.spec.eval_bool(self, c.expr, env, st, fr.loop_old.get(head, st) if hasattr(fr, 'loop_old') else st)
+            g = self.spec.eval_bool(self, c.expr, env, st, getattr(self, 'fn_old', None) or st)
             self.oblige(st, '%s/%s/loop.%s.%s.%s' % (self.tagstr(c), self.prog.short(fr.f['name']), lid,
                                                       c.label or 'inv%d' % c.ordinal, phase), g, tags=c.tags,
                         where='%s:%d' % (c.file, c.line), kind='invariant')
@@ -782,7 +786,7 @@ class Exec:
     def assume_invariants(self, fr, head, invs, decs, st):
         env = self.local_env(fr, st)
         for c in invs:
-            g = self.spec.eval_bool(self, c.expr, env, st, st)
+            g = self.spec.eval_bool(self, c.expr, env, st, getattr(self, 'fn_old', None) or st)
             st.pc.append(g)
         if not hasattr(fr, 'variant'):
             fr.variant = {}
@@ -922,8 +926,7 @@ class Exec:
 
     def on_store(self, fr, ins, st, a, v):
         if isinstance(a.x, PAddr) and ins.get('op') == 'Store':
-            st.trace.append(('access', 'plain-store', a.x, self.line(ins), tuple(getattr(st, 'held', ()))))
-            self.on_access(st, 'plain-store', a.x, ins)
+            self.on_access(st, 'plain-store', a.x, ins, fr, ins['addr'].get('n'))
 
     def i_UnOp(self, fr, ins, st):
         x = self.operand(fr, ins['x'], st)
@@ -933,6 +936,12 @@ class Exec:
             self.check_nonnil(st, x.x, ins, 'load')
             self.on_load(fr, ins, st, x)
             self.setreg(fr, ins, self.load(st, t, x.x))
+            ai = getattr(fr, 'addrinfo', {}).get(ins['x'].get('n'))
+            if ai:
+                vi = getattr(fr, 'valinfo', None)
+                if vi is None:
+                    vi = fr.valinfo = {}
+                vi[ins['name']] = ai[1]
         elif tok == '!':
             self.setreg(fr, ins, V(t, z3.Not(x.x)))
         elif tok == '-':
@@ -944,12 +953,15 @@ class Exec:
 
     def on_load(self, fr, ins, st, a):
         if isinstance(a.x, PAddr):
-            st.trace.append(('access', 'plain-load', a.x, self.line(ins), tuple(getattr(st, 'held', ()))))
-            self.on_access(st, 'plain-load', a.x, ins)
+            self.on_access(st, 'plain-load', a.x, ins, fr, ins['x'].get('n'))
 
-    def on_access(self, st, kind, p, ins):
-        if self.spec is not None:
-            self.spec.access_discipline(self, st, kind, p, ins)
+    def on_access(self, st, kind, p, ins, fr=None, regname=None):
+        info = None
+        if fr is not None and regname is not None:
+            info = getattr(fr, 'addrinfo', {}).get(regname)
+        st.trace.append(('access', kind, p, self.line(ins), tuple(getattr(st, 'held', ())), info))
+        if self.spec is not None and not getattr(self, 'dry', 0) and not getattr(self, 'pure_depth', 0):
+            self.spec.access_discipline(self, st, kind, p, ins, info, fr)
 
     # ---- lock set (C13) --------------------------------------------------------------------------------------
     def lock_id(self, p):
@@ -976,7 +988,13 @@ class Exec:
         st.trace.append(('release', p, self.line(ins)))
 
     def on_cond_wait(self, st, p, ins):
-        pass
+        # monitor discipline (C13): Wait is called with a mutex held; while waiting, other goroutines run: every shared
+        # location and all ghost state may change
+        held = getattr(st, 'held', ())
+        self.oblige(st, 'C13/%s/condwait.under-mutex@L%s' % (self.short_fn(), self.line(ins)),
+                    z3.BoolVal(len(held) == 1 and held[0][1] == 'mutex'), tags=['C13'], kind='discipline')
+        if not getattr(self, 'dry', 0):
+            self.spec.full_havoc(self, st, z3.BoolVal(False))
 
     def bvfit(self, term, w):
         cw = term.size()
@@ -1156,6 +1174,19 @@ class Exec:
         x = self.operand(fr, ins['x'], st)
         self.check_nonnil(st, x.x, ins, 'fieldaddr')
         self.setreg(fr, ins, V(ins['type'], x.x.ext(ins['field'])))
+        # static description of the location (struct type, field) for the access discipline
+        try:
+            pt = self.prog.under(ins['x']['t'])[1]
+            stn = pt['elem']
+            r = self.ts.rep(stn)
+            info = getattr(fr, 'addrinfo', None)
+            if info is None:
+                info = fr.addrinfo = {}
+            fname = r[1][ins['field']][0]
+            sn = self.prog.ty(stn).get('name') or stn
+            info[ins['name']] = (sn, fname, ins['x'].get('n'))
+        except Exception:
+            pass
 
     def i_Field(self, fr, ins, st):
         x = self.operand(fr, ins['x'], st)
@@ -1181,6 +1212,9 @@ class Exec:
             self.check_nonnil(st, x.x, ins, 'indexaddr')
             self.bounds(st, i64, z3.BitVecVal(n, 64), ins)
             self.setreg(fr, ins, V(ins['type'], x.x.ext(self.selc(i64))))
+            info = getattr(fr, 'addrinfo', None)
+            if info and ins['x'].get('n') in info:
+                info[ins['name']] = info[ins['x']['n']]
 
     def selc(self, bv):
         s = z3.simplify(bv)
@@ -1336,6 +1370,17 @@ class Exec:
         g = fv.x != FN_NIL
         self.oblige(st, 'safety/%s/nil-func@L%s' % (self.short_fn(), self.line(ins)), g, tags=['SAFE'], kind='safety')
         st.pc.append(g)
+        # `purefn name`: function values read from a field / parameter of that name are deterministic total functions of
+        # their arguments (e.g. the hasher): modelled by an uninterpreted application, no ledger, no effects
+        src = ins.get('call', {}).get('fn', {}) if isinstance(ins.get('call'), dict) else {}
+        info = getattr(fr, 'valinfo', {}).get(src.get('n')) if src else None
+        pure = getattr(self.spec.sf, 'purefns', set())
+        if (info in pure) or (src.get('k') in ('param', 'freevar') and src.get('n') in pure):
+            sig = self.prog.under(fv.t)[1]
+            rts = sig.get('results') or []
+            if len(rts) == 1 and not any(isinstance(a.x, list) for a in args):
+                f = z3.Function('apply_' + mangle(self.prog.under(fv.t)[0]), Fn, *[self.term(a).sort() for a in args], self.ts.sort(rts[0]))
+                return k(st, V(rts[0], f(fv.x, *[self.term(a) for a in args])))
         sig = self.prog.under(fv.t)[1]
         rets = [self.fresh_val(rt, 'cbret', st) for rt in (sig.get('results') or [])]
         # the callee may write through pointer arguments: local cells handed to it become arbitrary
